@@ -671,7 +671,7 @@ impl Gen {
                 world::mint_to(&mut l, &m.program, &m.key, &ta, &m.authority, 1u64 << 58);
                 tokens.insert(m.key, ta);
             }
-            if *role == Role::Lp {
+            if *role == Role::Lp || *role == Role::Attacker {
                 for m in &reward_mints {
                     let ta = new_key(&mut rng);
                     world::create_token_account(&mut l, &payer, &ta, &m.key, &wallet);
